@@ -47,10 +47,11 @@ namespace ScyllaVerif.Prepared
 presents when it has none (connection.rs:1015, 1036) -/
 abbrev Id := String
 
-/-- statement ids: opaque tokens the node hands out at PREPARE; the harness renders `⟨s, v⟩` as the bytes `q<s>v<v>`
-(statement number, version bumped by the `idChange` event). The driver only compares them for equality. -/
+/-- statement ids: what the node hands out at PREPARE. A node derives the id from the EXACT bytes of the query string
+(md5 in ScyllaDB/Cassandra; here the injective "hash" is the string itself) plus a version that the byzantine
+`idChange` event bumps. The driver only compares ids for equality. -/
 structure SId where
-  stmt : Nat
+  text : String
   ver : Nat
 deriving DecidableEq, Repr
 
@@ -379,20 +380,47 @@ structure Node where
   /-- byzantine: pending one-shot answer -/
   ov : Option Ov
 
-def textOf (s : Nat) : String := s!"q{s}"
-def idOf (s idv : Nat) : SId := ⟨s, idv⟩
+/-- the statement universe of the harness: statement number `s < 8` written in one of 8 ways (`tv`): plain, leading /
+trailing / surrounding whitespace and newlines, trailing semicolon, mixed case with inner double whitespace,
+non-ASCII. The text is what the caller passes to `prepare()`; every byte of it matters for the id. -/
+def textV (s tv : Nat) : String :=
+  match tv with
+  | 1 => s!" q{s}"
+  | 2 => s!"q{s}\n"
+  | 3 => s!"\n  q{s}\t \n"
+  | 4 => s!"q{s};"
+  | 5 => s!"Q{s} WHERE x = 'A  b'"
+  | 6 => s!"q{s} /* żółć ☃ */"
+  | 7 => s!"  q{s} -- ü \n;"
+  | _ => s!"q{s}"
+
+def textOf (s : Nat) : String := textV s 0
 def emptyMid : Id := "mE"
-def bogusId : SId := ⟨1000, 0⟩
+def bogusId : SId := ⟨"bogus", 0⟩
+
+def isWs (c : Char) : Bool := c == ' ' || c == '\n' || c == '\t' || c == '\r'
+
+/-- what a node's parser ignores: surrounding whitespace (so a trimmed query string is the SAME statement - with a
+DIFFERENT id) -/
+def trimWs (s : String) : String :=
+  String.ofList ((s.toList.dropWhile isWs).reverse.dropWhile isWs).reverse
+
+def matchesStmt (t : String) (s : Nat) : Nat → Bool
+  | 0 => false
+  | tv + 1 => trimWs (textV s tv) == t || matchesStmt t s tv
 
 def stmtOfTextAux (t : String) : Nat → Option Nat
   | 0 => none
-  | n + 1 => if textOf n == t then some n else stmtOfTextAux t n
+  | n + 1 => if matchesStmt t n 8 then some n else stmtOfTextAux t n
 
-/-- the statement universe of the harness: `q0 … q7` -/
-def stmtOfText (t : String) : Option Nat := stmtOfTextAux t 8
+/-- which statement a query string is (by its trimmed form), if any -/
+def stmtOfText (t : String) : Option Nat := stmtOfTextAux (trimWs t) 8
+
+/-- the id a node assigns: a function of the exact query string -/
+def idOf (text : String) (idv : Nat) : SId := ⟨text, idv⟩
 
 def lookupId (id : SId) (prepared : List SId) : Option Nat :=
-  if prepared.contains id then some id.stmt else none
+  if prepared.contains id then stmtOfText id.text else none
 
 def rowCells (cols : List Col) (v row : Nat) : Nat → List Cell
   | j =>
@@ -423,7 +451,7 @@ def announcedMid (k : Kind) (m : SMeta) : Id :=
 
 def firstUnknown (prepared : List SId) : List (SId × List Nat) → Option SId
   | [] => none
-  | (id, _) :: rest => if (lookupId id prepared).isSome then firstUnknown prepared rest else some id
+  | (id, _) :: rest => if prepared.contains id then firstUnknown prepared rest else some id
 
 def isExecOv : Option Ov → Bool
   | some .execError | some .execVoid | some .malformed | some .forceMeta | some .forceNoMeta => true
@@ -438,7 +466,7 @@ def serve (n : Node) : Req → Node × Resp
       if ss.prepFail then (n, .error 0x2200)
       else if n.ov == some .prepVoid then ({ n with ov := none }, .void)
       else
-        let id := idOf s ss.idv
+        let id := idOf text ss.idv
         let count := n.ov == some .prepCount
         let n' := { n with prepared := id :: n.prepared, ov := if count then none else n.ov }
         let normal := ss.kind == .normal && !count
@@ -484,7 +512,7 @@ deriving DecidableEq, Repr
 def setSt (f : Nat → SrvStmt) (s : Nat) (v : SrvStmt) : Nat → SrvStmt := fun i => if i = s then v else f i
 
 def applyEvent (n : Node) : Event → Node
-  | .evict s => { n with prepared := n.prepared.filter (fun e => e.stmt != s) }
+  | .evict s => { n with prepared := n.prepared.filter (fun e => stmtOfText e.text != some s) }
   | .schemaChange s m => { n with st := setSt n.st s { n.st s with smeta := m } }
   | .idChange s => { n with st := setSt n.st s { n.st s with idv := (n.st s).idv + 1 } }
   | .prepFail s on => { n with st := setSt n.st s { n.st s with prepFail := on } }
@@ -539,7 +567,8 @@ structure BatchArgs where
 deriving DecidableEq, Repr
 
 inductive Op
-  | prepare (slot node : Nat)
+  /-- `Connection::prepare(Statement::new(text))`; the result becomes the harness's statement number `slot` -/
+  | prepare (slot node : Nat) (text : String)
   | execute (a : ExecArgs)
   | batch (a : BatchArgs)
 deriving DecidableEq, Repr
@@ -573,9 +602,9 @@ def start (st : State) (k : Nat) (op : Op) : State × Obs :=
   match (st.caller k).pc, (st.caller k).wire with
   | .idle, .none =>
     match op with
-    | .prepare slot node =>
-      let r := Req.prepare (textOf slot)
-      (setCaller st k ⟨.fresh slot node (textOf slot), .req node r⟩, .sent node r)
+    | .prepare slot node text =>
+      let r := Req.prepare text
+      (setCaller st k ⟨.fresh slot node text, .req node r⟩, .sent node r)
     | .execute a =>
       match st.slot a.slot with
       | none => (st, .invalid)
